@@ -54,7 +54,13 @@ func (g *Gen) faultyBody(ups []string, depth int) []L.Stmt {
 	var ss []L.Stmt
 	n := 2 + g.n(4, "fbn")
 	for i := 0; i < n; i++ {
-		switch g.n(12, "fbkind") {
+		switch g.n(13, "fbkind") {
+		case 12:
+			// the failing function is reached through a table field whose name is unusual text (the call site's name ends
+			// up in tracebacks and messages)
+			g.class("err:callee_under_unusual_key")
+			key := []string{"", "(", "<", "%d%s", "a b", "\n", "?"}[g.n(7, "oddkey")]
+			ss = append(ss, local1("ok", tbl(kv(str(key), fn([]string{"p"}, false, blk(g.siteStmt(), ret(name("p"))))))), emit(call(idx(name("ok"), str(key)), num(3))))
 		case 0, 1:
 			ss = append(ss, g.siteStmt())
 		case 2:
